@@ -148,7 +148,7 @@ PROPS = {
     },
     "C15": {
         "slices": ["tree", "C15"],
-        "relevant_diff": lambda part, op: part.startswith("DIFF is") or part.startswith("DIFF eqany") or part.startswith("DIFF parse") or part.startswith("DIFF tree"),
+        "relevant_diff": lambda part, op: part.startswith("DIFF is") or part.startswith("DIFF eqany") or part.startswith("DIFF parse") or part.startswith("DIFF tree") or part.startswith("DIFF xlookup"),
         "assumptions": COMMON_ASSUME + ["decorations are ASCII (case, ASCII white space, well-formed parameters); unicode.IsSpace beyond ASCII is not modelled"],
         "trusted_base": ["Is / EqualsAny / lookup hand-modelled over the ParseMediaType model; names and aliases regenerated; tie: is/eqany/parse/res ops over every registered name and alias x decorations"],
     },
